@@ -211,6 +211,16 @@ where
     }
 }
 
+#[cfg(feature = "verif-hooks")]
+impl<T> Broadcasts<T> {
+    pub(crate) fn verif_entries(&self) -> Vec<(usize, Vec<u8>)> {
+        self.flip
+            .iter()
+            .map(|entry| (entry.remaining_tx, entry.data.clone()))
+            .collect()
+    }
+}
+
 #[derive(Debug, Clone)]
 struct Entry<T> {
     remaining_tx: usize,
